@@ -21,14 +21,13 @@ import (
 // function + ":" + construct text. A construct that is neither discharged by
 // a rule nor listed here is reported.
 var panicTable = map[string]string{
+	"recursion:func(a *registry.Package, b *registry.Package, lvl int):·,·,param+c": "conflict resolution one level deeper with the third-party holder of a wanted name: that holder is never a member of the pair (checked in the condition); beyond the deepest path level the wanted name is constant and has one holder, so a frame there either assigns or meets the equal-names branch, which is bounded by depth() and ends in numbering",
+	"recursion:func(a *registry.Package, b *registry.Package, lvl int):param,·,param+c": "as above, written in a helper that receives the package as a parameter",
 	"reverse:len(a) / 2":                                                      "constant non-zero divisor",
 	"capitalise:s[:1]":                                                        "every caller passes a go/types name or a non-empty constant/concatenation (nestedType results, which are non-empty for every type constructor)",
 	"capitalise:s[1:]":                                                        "as above",
 	"deCapitalise:s[:1]":                                                      "every caller passes a go/types type or object name, which is never empty",
 	"deCapitalise:s[1:]":                                                      "as above",
-	"MethodScope.resolveVarNameConflict:for-without-condition":                "candidates suggested+n are pairwise distinct and the scope holds finitely many variables and imports: some n is free after at most len(vars)+len(imports)+1 iterations",
-	"Registry.resolveImportConflict:for-without-condition":                    "names name+n are pairwise distinct and finitely many imports are registered, so some n is free",
-	"Registry.resolveImportConflict:recursive call Registry.resolveImportConflict(p, conflict, lvl + 1)": "the third-party holder of a wanted name is never a member of the pair (checked in the condition); beyond the deepest path level the wanted name is constant and has one holder, so a frame there either assigns or meets the equal-names branch, which is bounded by depth() and ends in numbering",
 }
 
 // recursion whose argument is a strict component of the value switched on terminates:
@@ -38,6 +37,7 @@ var structuralAccessors = map[string]bool{"Elem": true, "Key": true, "Type": tru
 var accessorBound = map[string]string{"At": "Len", "Method": "NumMethods", "ExplicitMethod": "NumExplicitMethods", "EmbeddedType": "NumEmbeddeds", "Field": "NumFields", "Term": "Len", "Tag": "NumFields"}
 
 type panicSite struct {
+	tableKey string // alternative key into the table (rename-proof)
 	fn     string
 	text   string
 	kind   string
@@ -80,6 +80,7 @@ func CheckPanics(run *core.Run, prog *load.Program) {
 				if x.Cond == nil {
 					s := add("loop", "for-without-condition", x)
 					s.text = "for-without-condition"
+					s.ok, s.reason = numberingLoop(prog, info, fd, x)
 				}
 				if x.Init != nil {
 					walk(x.Init, fname, loops, false)
@@ -265,6 +266,12 @@ func CheckPanics(run *core.Run, prog *load.Program) {
 			}
 			continue
 		}
+		if reason, listed := panicTable[s.tableKey]; listed && s.tableKey != "" {
+			nTable++
+			run.Check("G-PANIC/"+s.kind, key, pos, true, "")
+			run.Assumef("%s: %s", s.tableKey, reason)
+			continue
+		}
 		if reason, listed := panicTable[key]; listed {
 			nTable++
 			run.Check("G-PANIC/"+s.kind, key, pos, true, "")
@@ -274,6 +281,9 @@ func CheckPanics(run *core.Run, prog *load.Program) {
 		why := s.reason
 		if why == "" {
 			why = "no dominating guard, loop bound or table line discharges it"
+		}
+		if s.tableKey != "" {
+			why += " (table key: " + s.tableKey + ")"
 		}
 		run.Check("G-PANIC/"+s.kind, key, pos, false, fmt.Sprintf("%s in %s can panic or fail to terminate: %s", s.text, s.fn, why))
 	}
@@ -885,6 +895,14 @@ func recursionSites1(prog *load.Program) []*panicSite {
 			return true
 		})
 	})
+	graphForward := map[*types.Func][]*types.Func{}
+	for fn, es := range graph {
+		for _, e := range es {
+			if forwarding(e.info, e.fd, e.call) {
+				graphForward[fn] = append(graphForward[fn], e.to)
+			}
+		}
+	}
 	reach := func(from, to *types.Func) bool {
 		seen := map[*types.Func]bool{}
 		var dfs func(f *types.Func) bool
@@ -930,6 +948,16 @@ func recursionSites1(prog *load.Program) []*panicSite {
 					s.ok, s.reason = true, why
 				}
 			}
+			if !s.ok && e.to != fn && forwarding(e.info, e.fd, e.call) && !forwardCycle(prog, graphForward, fn) {
+				// a helper called with the caller's own parameters: no progress is needed on this edge as long
+				// as such edges alone close no cycle
+				s.ok, s.reason = true, "the call hands the caller's parameters on unchanged to another function, and calls of that kind alone form no cycle"
+			}
+			if !s.ok {
+				// a table line keyed by the callee's signature and the shape of the arguments
+				sig := types.TypeString(e.to.Type(), func(p *types.Package) string { return p.Name() })
+				s.tableKey = "recursion:" + sig + ":" + argShape(e.info, e.fd, e.call)
+			}
 			if !s.ok {
 				s.reason = "no argument is a strict component of the switched value and no decreasing measure is visible"
 			}
@@ -957,7 +985,7 @@ type structKey struct {
 var structMemo = map[structKey]int{} // 0 unknown, 1 in progress / false, 2 true
 
 func structuralFrom(prog *load.Program, info *types.Info, fd *ast.FuncDecl, a ast.Expr, needAccessor bool, depth int) bool {
-	if depth > 4 {
+	if depth > 9 {
 		return false
 	}
 	key := structKey{fd, a.Pos(), a.End(), needAccessor}
@@ -1022,6 +1050,19 @@ func structuralFrom1(prog *load.Program, info *types.Info, fd *ast.FuncDecl, a a
 				return true
 			})
 			if derived {
+				return true
+			}
+			// the element variable of a range over a list of strict components
+			isElem := false
+			ast.Inspect(fd, func(nn ast.Node) bool {
+				if rs, ok := nn.(*ast.RangeStmt); ok && rs.Value != nil {
+					if vid, ok := rs.Value.(*ast.Ident); ok && info.ObjectOf(vid) == v && prog != nil && componentList(prog, info, fd, rs.X, depth+1) {
+						isElem = true
+					}
+				}
+				return true
+			})
+			if isElem {
 				return true
 			}
 			// parameter of an enclosing function literal bound to a local: every call of that local
@@ -1501,6 +1542,7 @@ func CheckLoopsPureUntilExit(run *core.Run, prog *load.Program) {
 			if !ok || fs.Cond != nil {
 				return true
 			}
+			enclosingDeclOf[fs] = fd
 			f := cfgx.New(info, fd)
 			fname := load.FuncName(fn)
 			nbad := 0
@@ -1782,6 +1824,8 @@ func exactLen(info *types.Info, scope ast.Node, target string, l int64, cond ast
 	return ev(cond)
 }
 
+var enclosingDeclOf = map[*ast.ForStmt]*ast.FuncDecl{}
+
 // atMostOnce: the statement sits under `counter == constant` where counter is the loop's own counter,
 // stepped by the post statement only: it executes in at most one iteration, so it cannot keep the loop
 // from reaching a state in which nothing changes any more.
@@ -1815,6 +1859,27 @@ func atMostOnce(info *types.Info, fs *ast.ForStmt, st ast.Stmt) bool {
 	if assigned {
 		return false
 	}
+	// flow-sensitive form: with the counter different from every constant it is compared with, the
+	// statement is unreachable from the start of the body
+	if fd := enclosingDeclOf[fs]; fd != nil && len(fs.Body.List) > 0 {
+		f := cfgx.New(info, fd)
+		dec := callOracleExpr(func(e ast.Expr) (bool, bool, bool) {
+			if be, ok := e.(*ast.BinaryExpr); ok && (be.Op == token.EQL || be.Op == token.NEQ) {
+				for _, pair := range [][2]ast.Expr{{be.X, be.Y}, {be.Y, be.X}} {
+					if id, ok := ast.Unparen(pair[0]).(*ast.Ident); ok && info.ObjectOf(id) == counter && info.Types[pair[1]].Value != nil {
+						return true, be.Op == token.NEQ, be.Op == token.EQL
+					}
+				}
+			}
+			return false, false, false
+		})
+		if bb, bi := firstNodeWithin(f, fs.Body); bb >= 0 {
+			r := f.Explore(bb, bi, cfgx.Cuts{Decide: dec})
+			if n := nodeHolding(f, st); n != nil && !r.Passed(n) {
+				return true
+			}
+		}
+	}
 	for _, enc := range enclosing(fs.Body, st) {
 		is, ok := enc.(*ast.IfStmt)
 		if !ok || !within(is.Body, st) {
@@ -1832,6 +1897,146 @@ func atMostOnce(info *types.Info, fs *ast.ForStmt, st ast.Stmt) bool {
 				}
 			}
 		}
+	}
+	return false
+}
+
+// forwardCycle: calls that only hand parameters on form a cycle through fn.
+func forwardCycle(prog *load.Program, g map[*types.Func][]*types.Func, fn *types.Func) bool {
+	seen := map[*types.Func]bool{}
+	var dfs func(f *types.Func) bool
+	dfs = func(f *types.Func) bool {
+		if seen[f] {
+			return false
+		}
+		seen[f] = true
+		for _, t := range g[f] {
+			if t == fn || dfs(t) {
+				return true
+			}
+		}
+		return false
+	}
+	return dfs(fn)
+}
+
+// componentList: the expression is a slice all of whose elements are strict components of the value the
+// enclosing function switches on (or of a parameter that every caller fills with such a value).
+func componentList(prog *load.Program, info *types.Info, fd *ast.FuncDecl, e ast.Expr, depth int) bool {
+	if depth > 9 {
+		return false
+	}
+	e = ast.Unparen(e)
+	switch x := e.(type) {
+	case *ast.Ident:
+		if _, isNil := info.Uses[x].(*types.Nil); isNil {
+			return true
+		}
+		v := info.ObjectOf(x)
+		if v == nil {
+			return false
+		}
+		// a local slice: made, then only filled with components
+		okAll, n := true, 0
+		ast.Inspect(fd, func(nn ast.Node) bool {
+			as, ok := nn.(*ast.AssignStmt)
+			if !ok || len(as.Lhs) != len(as.Rhs) {
+				return true
+			}
+			for i, l := range as.Lhs {
+				switch lx := ast.Unparen(l).(type) {
+				case *ast.Ident:
+					if info.ObjectOf(lx) != v {
+						continue
+					}
+					n++
+					r := ast.Unparen(as.Rhs[i])
+					if call, ok := r.(*ast.CallExpr); ok {
+						if fid, ok := ast.Unparen(call.Fun).(*ast.Ident); ok {
+							if bi, ok := info.Uses[fid].(*types.Builtin); ok {
+								switch bi.Name() {
+								case "make":
+									continue
+								case "append":
+									if a0, ok := ast.Unparen(call.Args[0]).(*ast.Ident); ok && info.ObjectOf(a0) == v {
+										for _, a := range call.Args[1:] {
+											if call.Ellipsis.IsValid() {
+												if !componentList(prog, info, fd, a, depth+1) {
+													okAll = false
+												}
+											} else if !structuralFrom(prog, info, fd, a, true, depth+1) {
+												okAll = false
+											}
+										}
+										continue
+									}
+								}
+							}
+						}
+					}
+					if !componentList(prog, info, fd, r, depth+1) {
+						okAll = false
+					}
+				case *ast.IndexExpr:
+					if id, ok := ast.Unparen(lx.X).(*ast.Ident); ok && info.ObjectOf(id) == v {
+						n++
+						if !structuralFrom(prog, info, fd, as.Rhs[i], true, depth+1) {
+							okAll = false
+						}
+					}
+				}
+			}
+			return true
+		})
+		return okAll && n > 0
+	case *ast.CompositeLit:
+		for _, el := range x.Elts {
+			if !structuralFrom(prog, info, fd, el, true, depth+1) {
+				return false
+			}
+		}
+		return true
+	case *ast.CallExpr:
+		if fid, ok := ast.Unparen(x.Fun).(*ast.Ident); ok {
+			if bi, ok := info.Uses[fid].(*types.Builtin); ok && bi.Name() == "append" && len(x.Args) >= 1 {
+				if !componentList(prog, info, fd, x.Args[0], depth+1) {
+					return false
+				}
+				for _, a := range x.Args[1:] {
+					if x.Ellipsis.IsValid() {
+						if !componentList(prog, info, fd, a, depth+1) {
+							return false
+						}
+					} else if !structuralFrom(prog, info, fd, a, true, depth+1) {
+						return false
+					}
+				}
+				return true
+			}
+		}
+		cf, _ := typeutil.Callee(info, x).(*types.Func)
+		if cf == nil || !prog.IsMoqPkg(cf.Pkg()) {
+			return false
+		}
+		d := prog.Decl(cf.Origin())
+		if d == nil || d.Body == nil {
+			return false
+		}
+		cinfo := prog.Info(cf.Pkg())
+		okAll, n := true, 0
+		ast.Inspect(d.Body, func(nn ast.Node) bool {
+			if _, isLit := nn.(*ast.FuncLit); isLit {
+				return false
+			}
+			if rs, ok := nn.(*ast.ReturnStmt); ok {
+				n++
+				if len(rs.Results) != 1 || !componentList(prog, cinfo, d, rs.Results[0], depth+1) {
+					okAll = false
+				}
+			}
+			return true
+		})
+		return okAll && n > 0
 	}
 	return false
 }
